@@ -139,7 +139,29 @@ def main():
     # ---- 6. evidence
     wall = time.time() - t0
     thms = sorted(axioms.keys())
+    # source functions regenerated as Gallina on this run that the property's proof closure speaks about
+    translated = []
+    try:
+        import json as _json
+        import re as _re
+        man = _json.load(open(os.path.join(common.COQ, "Gen", "Src.manifest.json")))
+        used = set()
+        for fn in closure_files:
+            if fn.startswith("Gen/"):
+                continue
+            try:
+                used.update(_re.findall(r"\bsrc_\w+", open(os.path.join(common.COQ, fn)).read()))
+            except OSError:
+                pass
+        translated = [{"coq": m_["coq"], "source": "%s%s.%s:%d" % (m_["module"], ("." + m_["class"]) if m_["class"] else "",
+                                                                 m_["function"], m_["line"]), "sha256": m_["sha256"]}
+                      for m_ in man.get("translated", []) if m_["coq"] in used]
+        for f_ in man.get("failed", []):
+            notes.append("gen_src: NOT TRANSLATABLE %s.%s: %s" % (f_["module"], f_["function"], f_["error"]))
+    except Exception as e:
+        notes.append("gen_src manifest unreadable: %r" % e)
     coverage = {
+        "source_functions_translated_and_proved_equal_to_model": translated,
         "obligations": n_lemmas,
         "discharged": n_lemmas if proof_ok else 0,
         "checker_cmd": "cd /verif/coq && make Properties/%s.vo  (coqc 8.16.1, full .vo build) "
